@@ -123,7 +123,7 @@ CHECKS = {
              "one with N fraction digits (within half a unit of the last digit), exact values are printed exactly, ties go to "
              "the even neighbour, non-ties to the strictly nearer one, rounding is monotone, exactly N fraction digits are "
              "printed and the text reads back as the rounded value. Tie: {x:.Nf}, N = 0..12, on doubles from a fixed list "
-             "(binary ties, decimal pseudo-ties, both signs) and random dyadic / decimal literals vs the model. Added later: conversion-looking text as last println argument, print / println of doubles without format against C's %.15g (calibration, Python oracle).",
+             "(binary ties, decimal pseudo-ties, both signs) and random dyadic / decimal literals vs the model. Added later: conversion-looking text as last println argument, print / println of doubles without format against C's %.15g (calibration, Python oracle); padRight laws for left-aligned fields.",
         note="Calibrated to the implementation where the property is silent: println writes arguments one at a time; a "
              "sole literal is printed raw; surplus printf arguments are appended space-separated. Not generated: double "
              "quotes/backslashes in literals (lexer has no escaped quote), too few printf arguments, the `-` flag, %x/%o/%u, "
@@ -326,7 +326,7 @@ CHECKS = {
              "functions with statics, constants, struct+interface+impl, enums, typedefs, each exported or hidden; chains and "
              "diamonds): the program using every item the model says is visible must print what the single-file inlined "
              "program prints, for 3 orders / duplications of the import list; every item the model says is invisible must be "
-             "rejected. Added later: qualified calls m.f, self-imports and import cycles, exported global variables, selective imports and a re-import after the module's state changed.",
+             "rejected. Added later: qualified calls m.f, self-imports and import cycles, exported global variables, selective imports and a re-import after the module's state changed; theorem import_never_hides (imports only add).",
         note="Names are unique across modules (DisjointExports hypothesis). Selective imports and aliases are not generated. "
              "Listed finding: a module's own imports are not processed (transitive imports).",
         technique="Lean 4 proof (mechanism model of the import table) + differential correspondence on generated module graphs (model decides visibility, the inlined single-file program is the output oracle)",
